@@ -236,8 +236,11 @@ def mutate_path(v, p):
     """one mutation of the C06 grammar applied to a valid path"""
     rng = v.rng
     comps = p.split("/")
-    kind = rng.randrange(14)
-    if kind == 0 and len(comps) > 3:      # substitute a directory value
+    kind = rng.randrange(15)
+    if kind == 14:                        # characters of format strings / regexes / globs in a name
+        i = rng.randrange(max(1, len(comps) - 4), len(comps))
+        comps[i] = rng.choice(["{" + comps[i] + "}", comps[i] + "{", "{}{}", "{0}", "%s", comps[i] + "}", "{x}_" + comps[i], "\\d+", "(" + comps[i]])
+    elif kind == 0 and len(comps) > 3:      # substitute a directory value
         i = rng.randrange(2, len(comps))
         comps[i] = rng.choice([v.segment(), v.near_miss(comps[i])])
     elif kind == 1:                        # drop trailing components
@@ -427,7 +430,17 @@ def fam_listfind(v, n):
             for _ in range(2):
                 ss = [("*" if rng.random() < 0.45 else x) for x in segs]
                 ops.append({"op": "sid_call", "from": {"s": "/".join(segs)}, "m": "match", "search": "/".join(ss)})
-        # concrete lookups: present and absent
+        # concrete lookups: present and absent; and every PREFIX of an entry whose last segment is an alias
+        # name in a position that is not the leaf key (it still expands: "an alias in its last segment")
+        for e in L:
+            segs = e.strip().split("/")
+            for i in range(2, len(segs)):
+                if segs[i - 1] in v.aliases:
+                    pre = "/".join(segs[:i])
+                    L3 = L + [pre] + ["/".join(segs[:i - 1] + [m]) for m in v.aliases[segs[i - 1]][:2]]
+                    ops.append({"op": "find_list", "l": L3, "s": pre, "m": "find", **flags})
+                    ops.append({"op": "sid_call", "from": {"s": L3[-1]}, "m": "match", "search": pre})
+                    break
         ops.append({"op": "find_list", "l": L, "s": rng.choice(L), "m": "find", **flags})
         ops.append({"op": "find_list", "l": L, "s": v.typed_sid(search=0)[1], "m": "find", **flags})
     ops.append({"op": "find_list", "l": ["hamlet/a/char/a/model/v001/w/ma", "hamlet/a/char/a-b/model/v001/w/ma"], "s": "hamlet/a/char/>/model/*/w/*", "m": "find"})
@@ -518,7 +531,7 @@ def tree_universe(v, nleaf=None):
     return leaves
 
 
-def confusable_sibling(v, label, fields, cfg=None):
+def confusable_sibling(v, label, fields, cfg=None, with_or=False):
     """an entity whose FILE NAME is matched by the name pattern of a search it does not match: in a
     name like {assettype}_{asset}_{task}_{state}_{version}.{ext} the free field takes the value
     '<name>_<task>_<STATE>' and the state the other value; the search stars the free field and the
@@ -571,6 +584,13 @@ def confusable_sibling(v, label, fields, cfg=None):
                     search = "/".join("*" if kk in (kf, star) else vv for kk, vv in fields)
                     if any(ch in text for ch in "[]?*"):
                         return None
+                    if with_or:
+                        # the same search with an or-list over both values of the differing key, in both orders: one
+                        # alternative's name pattern matches the OTHER entity's file, which it must reject
+                        both = [dict(fields)[k], other_sid]
+                        ors = ["/".join("*" if kk in (kf, star) else (",".join(o) if kk == k else vv) for kk, vv in fields)
+                               for o in (sorted(both), sorted(both, reverse=True))]
+                        return sib, search, ors
                     return sib, search
                 j += 2
     return None
@@ -634,10 +654,11 @@ def fam_tree(v, n, model):
         cfg = default if rng.random() < 0.7 else rng.choice(configs)
         confusing = []
         for label, fields in list(leaves)[:2]:
-            cs = confusable_sibling(v, label, fields, cfg) if rng.random() < 0.6 else None
+            cs = confusable_sibling(v, label, fields, cfg, with_or=True) if rng.random() < 0.6 else None
             if cs and (label, cs[0]) not in leaves:
                 leaves.append((label, cs[0]))
                 confusing.append(cs[1])
+                confusing.extend(cs[2])
         import oracle_inputs as _oi
         extra_l, pairs = _oi.lopsided(v, leaves, tuples=True)
         for lf in extra_l:
@@ -676,6 +697,13 @@ def fam_tree(v, n, model):
                 ops.append({"op": "world", "w": wid, "do": "find_all", "s": s})
             else:
                 ops.append({"op": "world", "w": wid, "do": "find_paths", "s": s, "config": rng.choice(configs)})
+        for label, fields in leaves[:3]:      # '>' followed by '**': unfolded forms of several depths, '>' at one position
+            segs = [val for _, val in fields]
+            if len(segs) > 4:
+                i = rng.randrange(2, len(segs) - 1)
+                s_gt = "/".join(segs[:i] + [">", "**"])
+                ops.append({"op": "world", "w": wid, "do": "find_all", "s": s_gt})
+                ops.append({"op": "world", "w": wid, "do": "find_paths", "s": s_gt, "config": cfg})
         for s in constant_searches(v, leaves, 6):
             if rng.random() < 0.5:      # the path Finder asked first about a level it does not serve
                 ops.append({"op": "world", "w": wid, "do": "find_paths", "s": s, "config": cfg})
